@@ -6,7 +6,9 @@ For every function / method / property accessor of the package (tests excluded) 
   * the set of package functions it references (call, attribute access, callback, constructor): the edges.
 
 Sources
-  PARAM    the function's own ``rng`` parameter
+  PARAM    the function's own ``rng`` parameter; in a pymoo operator the generator pymoo hands over: a parameter
+           ``random_state`` or ``random_state = kwargs["random_state"]`` / ``kwargs.get("random_state")``
+           (pymoo 0.6.2 passes the algorithm's generator, which minimize(seed=...) seeds: see PYMOO_MINIMIZE)
   SELF     ``<obj>.rng`` / ``<obj>._rng``                       (a generator owned by an object)
   DEFAULT  ``global_prng`` used only as the value substituted for a missing generator
            (``if x is None: x = global_prng`` or a parameter default)
@@ -55,12 +57,26 @@ def _modname(root, path):
     return rel[:-9] if rel.endswith(".__init__") else rel
 
 class Func:
-    __slots__ = ("qn", "mod", "cls", "name", "node", "kind", "direct", "refs", "line", "file", "has_rng", "why")
+    __slots__ = ("qn", "mod", "cls", "name", "node", "kind", "direct", "refs", "line", "file", "has_rng", "why", "rs_handed")
     def __init__(self, qn, mod, cls, name, node, kind, file):
         self.qn, self.mod, self.cls, self.name, self.node, self.kind, self.file = qn, mod, cls, name, node, kind, file
         self.direct = 0; self.refs = set(); self.line = node.lineno; self.why = []
         a = node.args
         self.has_rng = any(x.arg == "rng" for x in a.posonlyargs + a.args + a.kwonlyargs)
+        # the generator a pymoo operator is handed: parameter random_state, or random_state = kwargs[...]/kwargs.get(...) of **kwargs
+        self.rs_handed = any(x.arg == "random_state" for x in a.posonlyargs + a.args + a.kwonlyargs)
+        if a.kwarg is not None:
+            for n in ast.walk(node):
+                if isinstance(n, ast.Assign) and len(n.targets) == 1 and isinstance(n.targets[0], ast.Name) and n.targets[0].id == "random_state":
+                    v = n.value
+                    key = None
+                    if isinstance(v, ast.Subscript) and isinstance(v.value, ast.Name) and v.value.id == a.kwarg.arg and isinstance(v.slice, ast.Constant):
+                        key = v.slice.value
+                    elif isinstance(v, ast.Call) and isinstance(v.func, ast.Attribute) and v.func.attr == "get" and isinstance(v.func.value, ast.Name) \
+                            and v.func.value.id == a.kwarg.arg and v.args and isinstance(v.args[0], ast.Constant) \
+                            and (len(v.args) == 1 or (isinstance(v.args[1], ast.Constant) and v.args[1].value is None)) and not v.keywords:
+                        key = v.args[0].value
+                    if key == "random_state": self.rs_handed = True
 
 class Cls:
     def __init__(self, qn, mod, node):
@@ -373,6 +389,9 @@ class Table:
         if base == "rng" and (rng_params or "rng" in shadow):
             if f.has_rng or rng_params: self._src(f, "PARAM", "rng", e) if not (f.direct & BITS["PARAM"]) else None
             return
+        if base == "random_state" and f.rs_handed and isinstance(e.ctx, ast.Load):
+            if not (f.direct & BITS["PARAM"]): self._src(f, "PARAM", "random_state handed over by pymoo", e)
+            return
         if base in ("self", "cls") and f.cls and base in shadow:
             if chain and chain[0] in ("rng", "_rng"):
                 if not (f.direct & BITS["SELF"]): self._src(f, "SELF", "self.%s" % chain[0], e)
@@ -633,6 +652,25 @@ class G:
     def run(self, p, a): return minimize(p, a, seed = int(self._rng.uniform(0.0, 1.0) * 4294967296))
     def run_unseeded(self, p, a): return minimize(p, a, copy_algorithm = False)
 def ok_derived(s): return default_rng(s)
+class Op:
+    def _do(self, problem, X, **kwargs):
+        random_state = kwargs.get("random_state")
+        if random_state is None:
+            random_state = global_prng
+        return random_state.choice(X)
+    def _do_sub(self, problem, X, **kwargs):
+        random_state = kwargs["random_state"]
+        return random_state.random()
+    def _do_par(self, problem, X, random_state=None, **kwargs): return random_state.random()
+    def _do_bad(self, problem, X, **kwargs):
+        random_state = kwargs.get("random_state")
+        return numpy.random.choice(X)
+    def _do_other(self, problem, X, **kwargs):
+        random_state = kwargs.get("seed")
+        return X
+    def _do_owndefault(self, problem, X, **kwargs):
+        random_state = kwargs.get("random_state", default_rng())
+        return random_state.random()
 def ok_types(x: numpy.random.Generator) -> numpy.random.RandomState: return isinstance(x, Generator)
 def bad_global(): return global_prng.normal()
 def bad_global_cond(rng=None):
@@ -670,7 +708,7 @@ def via_method(a): return a.use()
 def via_ctor(): return B()
 '''
 _SELFTEST_EXPECT = {"ok_param": 5, "bad_np_attr": 8, "bad_np_alias": 8, "bad_npr": 8, "bad_from": 8, "bad_py": 16, "bad_py_from": 16,
-                    "bad_os": 32, "bad_os2": 32, "bad_os3": 32, "bad_os4": 32, "bad_os5": 32, "bad_os6": 32, "bad_os7": 32, "ok_seeded": 0, "G.run": 2, "G.run_unseeded": 32, "ok_derived": 0, "ok_types": 0,
+                    "bad_os": 32, "bad_os2": 32, "bad_os3": 32, "bad_os4": 32, "bad_os5": 32, "bad_os6": 32, "bad_os7": 32, "ok_seeded": 0, "Op._do": 5, "Op._do_sub": 1, "Op._do_par": 1, "Op._do_bad": 8, "Op._do_other": 0, "Op._do_owndefault": 32, "G.run": 2, "G.run_unseeded": 32, "ok_derived": 0, "ok_types": 0,
                     "bad_global": 8, "bad_global_cond": 9, "bad_wrapper": 8, "bad_urandom": 32, "bad_secrets": 32, "ignored": 128, "stub": 0,
                     "calls_bad": 0, "nested": 8, "A.__init__": 3, "A.rng": 2, "A.rng.setter": 6, "A.use": 2, "A.drop": 64, "A.drop2": 64,
                     "A.fwd": 2, "A.fwdpos": 2, "B.use": 8, "via_method": 0, "via_ctor": 0}
